@@ -1,6 +1,7 @@
 (* UpdownListModel.v — model of `updown list` (pkg/updown/input.go getLines, pkg/updown/list.go
    writeOutput, List) and its column-wise spec.  Definitions only. *)
 From GF Require Import Base Alphabet SymbolsDef FastaModel SnpsModel.
+From GF Require Import CsvModel.
 Open Scope N_scope.
 
 (* class of one alignment column: a known base (A/C/G/T) that is or is not a SNP w.r.t. the
@@ -40,8 +41,9 @@ Definition range_text (r : nat * nat) : list N :=
   if Nat.eqb (fst r) (snd r) then dec_nat (fst r) else dec_nat (fst r) ++ [45] ++ dec_nat (snd r).
 
 Definition list_header : list N := bs "query,SNPs,ambiguities,SNPcount,ambcount" ++ [NL].
+(* the ID is the one free-text cell: written through csvField since repair D18 (CsvModel.v) *)
 Definition row_text (id : list N) (snptexts : list (list N)) (rs : list (nat * nat)) (ac : nat) : list N :=
-  id ++ [44] ++ join [124] snptexts ++ [44] ++ join [124] (map range_text rs) ++ [44] ++
+  csv_field id ++ [44] ++ join [124] snptexts ++ [44] ++ join [124] (map range_text rs) ++ [44] ++
   dec_nat (length snptexts) ++ [44] ++ dec_nat ac ++ [NL].
 Definition list_row (refenc : list N) (r : rcd) : list N :=
   let '(sn, rs, ac) := get_line (cols_of refenc (r_seq r)) in
